@@ -78,6 +78,8 @@ def plan(ctx):
     seqs = []
     for i in range(n):
         seqs.append(("res-%d" % i, g.res_seq(rng)))
+        if i % 3 == 0:
+            seqs.append(("rsc-%d" % i, g.res_split_carry(rng)))
         seqs.append(("err-%d" % i, g.heap_seq(rng, "err")))
         seqs.append(("tr-%d" % i, g.heap_seq(rng, "tr")))
         seqs.append(("slow-%d" % i, g.slow_seq(rng)))
